@@ -36,6 +36,8 @@ func init() {
 			log := func(m M) { mu.Lock(); ev = append(ev, m); mu.Unlock() }
 			log(M{"e": "new"})
 			var wg sync.WaitGroup
+			startAll := make(chan struct{})
+			const hammer = 3000
 			nrec := 2 + rng.Intn(3)
 			for g := 0; g < nrec; g++ {
 				g := g
@@ -47,42 +49,93 @@ func init() {
 				go func() {
 					defer wg.Done()
 					shared := ts.Counter("shared")
+					sharedTimer := ts.Timer("tshared") // several writers: only the number of retained values is judged
 					own := scope.Counter(fmt.Sprintf("own%d", g))
 					gauge := scope.Gauge(fmt.Sprintf("g%d", g))
 					timer := scope.Timer(fmt.Sprintf("t%d", g))
 					hist := scope.Histogram(fmt.Sprintf("h%d", g), tally.ValueBuckets{1, 2})
 					ng, nt := 0, 0
+					// all recorders hit the shared timer at the same time (logged as one batch of calls)
+					<-startAll
+					log(M{"e": "call", "m": "tshared", "n": hammer})
+					for i := 0; i < hammer; i++ {
+						sharedTimer.Record(time.Duration(1))
+					}
+					log(M{"e": "ret", "m": "tshared", "n": hammer})
 					for i := 0; i < nops; i++ {
 						switch i % 5 {
 						case 0:
-							log(M{"e": "call", "m": "shared"})
+							log(M{"e": "call", "m": "shared", "n": 1})
 							shared.Inc(1)
-							log(M{"e": "ret", "m": "shared"})
+							log(M{"e": "ret", "m": "shared", "n": 1})
 						case 1:
 							m := fmt.Sprintf("own%d", g)
-							log(M{"e": "call", "m": m})
+							log(M{"e": "call", "m": m, "n": 1})
 							own.Inc(1)
-							log(M{"e": "ret", "m": m})
+							log(M{"e": "ret", "m": m, "n": 1})
 						case 2:
 							ng++
 							m := fmt.Sprintf("g%d", g)
-							log(M{"e": "call", "m": m})
+							log(M{"e": "call", "m": m, "n": 1})
 							gauge.Update(float64(ng))
-							log(M{"e": "ret", "m": m})
+							log(M{"e": "ret", "m": m, "n": 1})
 						case 3:
 							nt++
 							m := fmt.Sprintf("t%d", g)
-							log(M{"e": "call", "m": m})
+							log(M{"e": "call", "m": m, "n": 1})
 							timer.Record(time.Duration(nt))
-							log(M{"e": "ret", "m": m})
+							log(M{"e": "ret", "m": m, "n": 1})
 						case 4:
+							if i%10 == 9 {
+								log(M{"e": "call", "m": "tshared", "n": 1})
+								sharedTimer.Record(time.Duration(1))
+								log(M{"e": "ret", "m": "tshared", "n": 1})
+								continue
+							}
 							m := fmt.Sprintf("h%d", g)
-							log(M{"e": "call", "m": m})
+							log(M{"e": "call", "m": m, "n": 1})
 							hist.RecordValue(1.5)
-							log(M{"e": "ret", "m": m})
+							log(M{"e": "ret", "m": m, "n": 1})
 						}
 					}
 				}()
+			}
+			takeSnap := func(id int) {
+				log(M{"e": "snapcall", "s": id})
+				s := ts.Snapshot()
+				vals := [][]interface{}{}
+				short := func(n string) string {
+					// snapshot keys are name+tags: the metric names of this harness are unique without the tags
+					for i := 0; i < len(n); i++ {
+						if n[i] == '+' {
+							return n[:i]
+						}
+					}
+					return n
+				}
+				for _, c := range s.Counters() {
+					vals = append(vals, []interface{}{short(c.Name()), "counter", int(c.Value()), true})
+				}
+				for _, g := range s.Gauges() {
+					vals = append(vals, []interface{}{short(g.Name()), "gauge", int(g.Value()), g.Value() == float64(int(g.Value()))})
+				}
+				for _, t := range s.Timers() {
+					ok := true
+					for i, d := range t.Values() {
+						if d != time.Duration(i+1) && short(t.Name()) != "tshared" {
+							ok = false
+						}
+					}
+					vals = append(vals, []interface{}{short(t.Name()), "timer", len(t.Values()), ok})
+				}
+				for _, h := range s.Histograms() {
+					total := int64(0)
+					for _, n := range h.Values() {
+						total += n
+					}
+					vals = append(vals, []interface{}{short(h.Name()), "histogram", int(total), h.Values()[2] == total})
+				}
+				log(M{"e": "snapret", "s": id, "vals": vals})
 			}
 			for sn := 0; sn < 2; sn++ {
 				sn := sn
@@ -90,47 +143,14 @@ func init() {
 				go func() {
 					defer wg.Done()
 					for k := 0; k < nsnaps; k++ {
-						id := sn*100000 + k
-						log(M{"e": "snapcall", "s": id})
-						s := ts.Snapshot()
-						vals := [][]interface{}{}
-						short := func(n string) string {
-							// snapshot keys are name+tags: the metric names of this harness are unique without the tags
-							for i := 0; i < len(n); i++ {
-								if n[i] == '+' {
-									return n[:i]
-								}
-							}
-							return n
-						}
-						for _, c := range s.Counters() {
-							vals = append(vals, []interface{}{short(c.Name()), "counter", int(c.Value()), true})
-						}
-						for _, g := range s.Gauges() {
-							vals = append(vals, []interface{}{short(g.Name()), "gauge", int(g.Value()), g.Value() == float64(int(g.Value()))})
-						}
-						for _, t := range s.Timers() {
-							ok := true
-							for i, d := range t.Values() {
-								if d != time.Duration(i+1) {
-									ok = false
-								}
-							}
-							vals = append(vals, []interface{}{short(t.Name()), "timer", len(t.Values()), ok})
-						}
-						for _, h := range s.Histograms() {
-							total := int64(0)
-							for _, n := range h.Values() {
-								total += n
-							}
-							vals = append(vals, []interface{}{short(h.Name()), "histogram", int(total), h.Values()[2] == total})
-						}
-						log(M{"e": "snapret", "s": id, "vals": vals})
+						takeSnap(sn*100000 + k)
 						evals++
 					}
 				}()
 			}
+			close(startAll)
 			wg.Wait()
+			takeSnap(999999) // everything has returned: what was called = what had returned
 			for _, e := range ev {
 				tr.Emit(e)
 			}
